@@ -61,4 +61,16 @@ CHECKS = {
     text='11280 (thorough 71784) cases: scaling, diagonal (all transforms), sandwich (16 buns x 11 cheeses), block-diagonal, sums, SamplingEnabler x adjoint/inverse adapters x forward/inverse draws x real/complex sampling dtype. Zero mean, linearity in the excitation (hence Gaussian), L L^H = C or C^-1 (2C for complex dtype, L L^T = 0) to round-off; operators that cannot be covariances must refuse. No Monte-Carlo step.',
     note='distribution decided through linearity in the scripted excitation; CG inside SamplingEnabler run to 1e-13; documented limitations of the library count as declines (skips).',
     ref='DESIGN.md section for C13'),
+ 'C32': dict(
+    engine='case-runner', level='exploration',
+    technique='weighted-choice enumeration: every outcome of every Bernoulli draw of a NUTS/HMC transition is executed (library control flow switched to Python, jax.random.bernoulli replaced by an enumerating chooser), giving the exact transition kernel on a leapfrog orbit; grid enumeration for the integrator identities',
+    text="Leapfrog: reversibility, flip-reversibility, |det|=1 and symplecticity (jacfwd) on every point of a 5^(2d) phase-space grid x step sizes x masses x 4 potentials. HMC: detailed balance w(z)a(z->z')=w(z')a(z'->z) and involution of the proposal at every grid point. NUTS: for 9 (thorough 16) orbits incl. max_tree_depth 1,2(,3), biased and unbiased progressive sampling, all starts in the window and ALL Bernoulli outcomes (3998 weighted paths quick): path weights sum to 1, candidates lie on the orbit, and global balance sum_k w_k K(k->j)=w_j holds to 1e-8 (observed 2e-16) on orbits where the U-turn criterion truncates trees. Momentum refresh exact N(0,M) through the scripted RNG.",
+    note="'long chains reproduce moments' is the statistical corollary of these kernel identities and is not sampled; eager execution through the library's _DISABLE_CONTROL_FLOW_PRIM switch; step sizes inside the leapfrog stability region.",
+    ref='DESIGN.md section for C32'),
+ 'C21': dict(
+    engine='case-runner', level='model_checking',
+    technique='explicit-state BFS over RNG-stack operation histories on the real nifty.cl.random module with a lock-step reference model; exhaustive (residual_map x kl_map x jit) configuration product; fresh-process repetition',
+    text="All histories up to depth 6 (thorough 8) over {enter/exit Context, exit by exception, with-blocks, push/pop, draw, spawn}: stack depth, identity of the restored generator, every draw and spawn equal numpy's stream from the seed alone, exceptions propagate. Classic and JAX VI runs are bit-identical across three fresh interpreters (random PYTHONHASHSEED); all 18 (residual_map, kl_map, jit) configurations of the JAX driver agree with the baseline to 1e-10.",
+    note='well-nested stack use; JAX minimisers fixed to the jit-compatible variants so that only map/jit choices vary.',
+    ref='DESIGN.md section for C21'),
 }
